@@ -782,7 +782,12 @@ func c03taint(p *Program, r *Report, rule string) {
 	if hpl == nil || mpl == nil {
 		return
 	}
-	tainted := func(v ssa.Value) bool {
+	// Interprocedural, context-insensitive: a library function whose result derives from a wire length hands the taint to its
+	// call sites, a tainted integer argument taints the callee's parameter (fixpoint).
+	taintedRet := map[*ssa.Function]map[int]bool{}
+	taintedParam := map[*ssa.Parameter]bool{}
+	var tainted func(v ssa.Value) bool
+	tainted = func(v ssa.Value) bool {
 		return valueDerives(v, func(x ssa.Value) bool {
 			switch y := x.(type) {
 			case *ssa.UnOp:
@@ -793,9 +798,58 @@ func c03taint(p *Program, r *Report, rule string) {
 				}
 			case *ssa.Field:
 				return fieldOf(y) == hpl
+			case *ssa.Parameter:
+				return taintedParam[y]
+			case *ssa.Call:
+				if cal := y.Call.StaticCallee(); cal != nil && taintedRet[cal][0] && cal.Signature.Results().Len() == 1 {
+					return true
+				}
+			case *ssa.Extract:
+				if c, ok := y.Tuple.(*ssa.Call); ok {
+					if cal := c.Call.StaticCallee(); cal != nil && taintedRet[cal][y.Index] {
+						return true
+					}
+				}
 			}
 			return false
 		}, 6)
+	}
+	isInt := func(t types.Type) bool {
+		b, ok := t.Underlying().(*types.Basic)
+		return ok && b.Info()&types.IsInteger != 0
+	}
+	for changed, round := true, 0; changed && round < 8; round++ {
+		changed = false
+		for _, fn := range p.Funcs {
+			for _, b := range fn.Blocks {
+				for _, in := range b.Instrs {
+					switch x := in.(type) {
+					case *ssa.Return:
+						for i, res := range x.Results {
+							if isInt(res.Type()) && !taintedRet[fn][i] && tainted(res) {
+								if taintedRet[fn] == nil {
+									taintedRet[fn] = map[int]bool{}
+								}
+								taintedRet[fn][i] = true
+								changed = true
+							}
+						}
+					case ssa.CallInstruction:
+						cal := x.Common().StaticCallee()
+						if cal == nil || len(cal.Blocks) == 0 || !p.isLib(cal) {
+							continue
+						}
+						args := x.Common().Args
+						for i, a := range args {
+							if i < len(cal.Params) && isInt(a.Type()) && !taintedParam[cal.Params[i]] && tainted(a) {
+								taintedParam[cal.Params[i]] = true
+								changed = true
+							}
+						}
+					}
+				}
+			}
+		}
 	}
 	n := 0
 	for _, fn := range p.Funcs {
